@@ -235,7 +235,7 @@ def enumerate_cases(tier, seed):
 
 
 def tasks(tier, seed):
-    return [{'cases': ch} for ch in core.spread(enumerate_cases(tier, seed), 64)]
+    return [{'cases': ch} for ch in core.chunks(enumerate_cases(tier, seed), 64)]
 
 
 def run_task(task):
